@@ -274,6 +274,86 @@ def tset(*items) -> frozenset:
 # --------------------------------------------------------------------------- program
 
 
+def fold_return_temps(tree: ast.AST) -> ast.AST:
+    """normal form at load time: `t = E` immediately followed by `return t`, with `t` used nowhere else in the
+    function, reads `return E` — the rules see the returned expression whether or not it was given a name first"""
+
+    def fold(fn) -> None:
+        uses: dict = {}
+        for x in ast.walk(fn):
+            if isinstance(x, ast.Name):
+                uses[x.id] = uses.get(x.id, 0) + 1
+        params = {a.arg for a in [*fn.args.posonlyargs, *fn.args.args, *fn.args.kwonlyargs]}
+
+        def block(stmts):
+            out = []
+            i = 0
+            while i < len(stmts):
+                s, nx = stmts[i], stmts[i + 1] if i + 1 < len(stmts) else None
+                if (
+                    isinstance(s, ast.Assign)
+                    and len(s.targets) == 1
+                    and isinstance(s.targets[0], ast.Name)
+                    and isinstance(nx, ast.Return)
+                    and isinstance(nx.value, ast.Name)
+                    and nx.value.id == s.targets[0].id
+                    and uses.get(s.targets[0].id) == 2
+                    and s.targets[0].id not in params
+                ):
+                    out.append(ast.copy_location(ast.Return(value=s.value), s))
+                    i += 2
+                    continue
+                out.append(s)
+                i += 1
+            return out
+
+        for x in ast.walk(fn):
+            if x is not fn and isinstance(x, (ast.FunctionDef, ast.AsyncFunctionDef)):
+                continue
+            for f in ("body", "orelse", "finalbody"):
+                v = getattr(x, f, None)
+                if isinstance(v, list) and v and isinstance(v[0], ast.stmt):
+                    setattr(x, f, block(v))
+
+    for node in ast.walk(tree):
+        if isinstance(node, (ast.FunctionDef, ast.AsyncFunctionDef)):
+            fold(node)
+    return tree
+
+
+_MIRROR = {ast.Lt: ast.Gt, ast.Gt: ast.Lt, ast.LtE: ast.GtE, ast.GtE: ast.LtE, ast.Eq: ast.Eq, ast.NotEq: ast.NotEq}
+
+
+def _constantish(e: ast.AST) -> bool:
+    """literals, enum members / class constants (`Unit.kpc`, `MPI.ANY_SOURCE`), ALL_CAPS names, and signed literals"""
+    if isinstance(e, ast.Constant):
+        return True
+    if isinstance(e, ast.UnaryOp) and isinstance(e.op, (ast.USub, ast.UAdd)):
+        return _constantish(e.operand)
+    if isinstance(e, ast.Name):
+        return e.id.isupper() or e.id in ("NotSet", "EndOfQueue")
+    if isinstance(e, ast.Attribute):
+        root = e
+        while isinstance(root, ast.Attribute):
+            root = root.value
+        return isinstance(root, ast.Name) and root.id[:1].isupper() and root.id not in ("self", "cls")
+    if isinstance(e, ast.Tuple):
+        return bool(e.elts) and all(_constantish(x) for x in e.elts)
+    return False
+
+
+def canonical_compares(tree: ast.AST) -> ast.AST:
+    """normal form at load time: a single comparison whose left operand is a constant and whose right operand is not
+    (`0 < n`, `"custom" == self.method`) is mirrored (`n > 0`, `self.method == "custom"`), so that every rule reads one
+    orientation"""
+    for node in ast.walk(tree):
+        if isinstance(node, ast.Compare) and len(node.ops) == 1 and type(node.ops[0]) in _MIRROR:
+            l, r = node.left, node.comparators[0]
+            if _constantish(l) and not _constantish(r):
+                node.left, node.comparators, node.ops = r, [l], [_MIRROR[type(node.ops[0])]()]
+    return tree
+
+
 def desugar_match(tree: ast.AST) -> ast.AST:
     """`match` statements whose patterns are values, singletons, wildcards, captures, class patterns without
     sub-patterns and or-patterns of those are rewritten into the equivalent if / elif chain at load time, so that every
@@ -358,6 +438,7 @@ class Program:
         self._env_cache: dict = {}
         self._load()
         self._link()
+        self._canonical_arguments()
 
     # ----------------------------------------------------------------- loading
     def _load(self) -> None:
@@ -382,6 +463,8 @@ class Program:
                     raise AnalysisError(f"cannot parse {rel}: {err}") from err
                 if "match " in src:
                     tree = desugar_match(tree)
+                tree = fold_return_temps(tree)
+                tree = canonical_compares(tree)
                 mod = Module(name, path, os.path.relpath(path, self.root), tree, src)
                 self.modules[name] = mod
         for mod in self.modules.values():
@@ -525,6 +608,57 @@ class Program:
                 ci.bases.append(got if got is not None else (dotted(b) or unparse(b)))
         for ci in self.classes:
             self._collect_inst_attrs(ci)
+
+    def _canonical_arguments(self) -> None:
+        """normal form after linking: in a call whose callee is one precisely resolved function / constructor of the
+        package, every argument that *can* be passed by position is — `f(x=a, y=b)`, `f(a, y=b)` and `f(a, b)` all
+        read `f(a, b)` (as long as no earlier parameter is left out); keyword-only parameters and parameters after a
+        gap stay keywords, in signature order.  The rules then read one spelling of the call."""
+        todo = []
+        for fi in list(self.funcs):
+            for c in ast.walk(fi.node):
+                if not isinstance(c, ast.Call) or not c.keywords or any(isinstance(x, ast.Starred) for x in c.args) or any(k.arg is None for k in c.keywords):
+                    continue
+                try:
+                    tg = self.resolve_call(fi, c)
+                except Exception:  # noqa: BLE001
+                    continue
+                if not getattr(tg, "precise", True):
+                    continue
+                fs, cl = tg.funcs(), tg.classes()
+                if len(fs) + len(cl) != 1 or len(tg.targets) != 1:
+                    continue
+                if cl:
+                    if cl[0].is_dataclass or any((dotted(b) or "").split(".")[-1] == "NamedTuple" for b in cl[0].node.bases):
+                        continue  # (field order of generated constructors: left as written)
+                    callee = self.find_method(cl[0], "__init__")
+                    if callee is None or "__new__" in cl[0].methods:
+                        continue
+                    skip = 1
+                else:
+                    callee = fs[0]
+                    if callee.decorators() and not (callee.is_classmethod or callee.is_staticmethod):
+                        continue
+                    skip = 0
+                    if callee.cls is not None and not callee.is_staticmethod:
+                        # bound call (obj.m(...), cls.m(...)) drops the first parameter; Class.m(obj, ...) does not
+                        f = c.func
+                        unbound = isinstance(f, ast.Attribute) and isinstance(f.value, ast.Name) and f.value.id[:1].isupper() and not callee.is_classmethod and bool(self.find_classes(f.value.id))
+                        skip = 0 if unbound else 1
+                a = callee.node.args
+                if a.vararg is not None:
+                    continue
+                pos = [p_.arg for p_ in [*a.posonlyargs, *a.args]][skip:]
+                todo.append((c, pos))
+        for c, pos in todo:
+            k = len(c.args)
+            kws = {kw.arg: kw for kw in c.keywords}
+            moved = []
+            while k + len(moved) < len(pos) and pos[k + len(moved)] in kws:
+                moved.append(kws[pos[k + len(moved)]])
+            if moved:
+                c.args = [*c.args, *[m.value for m in moved]]
+                c.keywords = [kw for kw in c.keywords if kw not in moved]
 
     def _collect_inst_attrs(self, ci: ClassInfo) -> None:
         def add(name: str, value) -> None:
